@@ -3,7 +3,7 @@ from __future__ import annotations
 
 import importlib
 
-from symcheck.env import HarnessError
+from symcheck.env import HarnessError, need
 
 STDIO = importlib.import_module("chuk_mcp.transports.stdio.stdio_client")
 SPARAMS = importlib.import_module("chuk_mcp.transports.stdio.parameters")
@@ -66,6 +66,8 @@ class Rec:
 
 def make_client(chunks=()):
     c = STDIO.StdioClient(SPARAMS.StdioParameters(command="x", args=[]))
+    need(c, "_notify_send", "_incoming_send", "_outgoing_send", "_outgoing_recv", "_streams_initialized", "process", "tg", "batch_processor",
+         "_stdout_reader", "_stdin_writer", "_process_message_data", "_route_message", "_pending")
     c._notify_send = Rec()
     c._incoming_send = Rec()
     c._outgoing_send = Rec()
